@@ -35,9 +35,51 @@ func Run(outDir string, seed int64, tier string) error {
 		}
 		scs = keep
 	}
+	// ---- calibration: one plain 3-node ceremony measures how fast this machine is right now; every
+	// real-time constant of the real runs (kick-off grace period, phase timeout, waits) is scaled by
+	// the factor derived from it, so that a busy machine does not turn into failed ceremonies ----
+	calSc := scenario{Name: "cal-" + crypto.DefaultSchemeID + "-n3-t2-prompt-", Scheme: crypto.DefaultSchemeID, N: 3, Thr: 2, Period: 1000,
+		Sched: schedule{Name: "prompt", SlowNode: -1}, Phase: 2500 * time.Millisecond, BeaconID: "default", ListPerm: []int{2, 0, 1},
+		GenesisIn: -(7*1000 + 500), Scale: 1}
+	var calObs []epochObs
+	scale := 1.0
+	for _, f := range []float64{1, 4, 12} {
+		c := calSc
+		c.Scale = f
+		c.Phase = time.Duration(float64(calSc.Phase) * f)
+		calObs = runScenario(c, seed*1000+900)
+		if !incomplete(calObs) {
+			// an idle machine needs about 0.25 s on top of the grace period
+			work := calObs[0].Wall - 0.8*f
+			scale = work / 0.5
+			if scale < f {
+				scale = f
+			}
+			break
+		}
+		scale = 0
+	}
+	if scale == 0 {
+		return fmt.Errorf("calibration: a plain 3-node DKG did not complete even with 12x timeouts: %s", calObs[len(calObs)-1].Err)
+	}
+	if scale > 1 {
+		scale *= 1.5 // the scenarios below run in parallel
+	}
+	if scale > 16 {
+		scale = 16
+	}
+	rep.Extra["time_scale"] = map[string]interface{}{"factor": scale, "calibration_wall_s": calObs[0].Wall,
+		"note": "every real-time constant of the real runs is multiplied by this factor (measured with one plain 3-node DKG at the start of the run)"}
+	scaled := func(sc scenario, f float64) scenario {
+		sc.Scale = f
+		sc.Phase = time.Duration(float64(sc.Phase) * f)
+		return sc
+	}
+
 	type scRes struct {
-		sc  scenario
-		obs []epochObs
+		sc           scenario
+		obs          []epochObs
+		inconclusive string
 	}
 	results := make([]scRes, len(scs))
 	var wg sync.WaitGroup
@@ -48,15 +90,32 @@ func Run(outDir string, seed int64, tier string) error {
 			defer wg.Done()
 			par <- struct{}{}
 			defer func() { <-par }()
-			obs := runScenario(scs[i], seed*1000+int64(i))
+			obs := runScenario(scaled(scs[i], scale), seed*1000+int64(i))
+			why := ""
 			if incomplete(obs) {
-				// one retry with slower phases: a loaded machine must not produce an alarm
-				sc := scs[i]
-				sc.Phase *= 2
+				// retry with longer timeouts: a loaded machine must not produce an alarm
+				sc := scaled(scs[i], 2*scale+1)
 				sc.Name += "/retry"
-				obs = runScenario(sc, seed*1000+int64(i)+500)
+				obs = runScenario(sc, seed*1000+int64(i))
 			}
-			results[i] = scRes{scs[i], obs}
+			if incomplete(obs) {
+				// control run: the same ceremony without the scripted schedule (no delays, no lost or
+				// late transmission, no crash). Only when the control completes is the schedule the
+				// one difference, and the non-completion reported; otherwise the run is inconclusive.
+				why = "inconclusive: the ceremony did not complete, nor did the same ceremony without the scripted schedule"
+				if scs[i].Witness == "" && !scs[i].WitnessOnly {
+					ctl := scaled(scs[i], 2*scale+1)
+					ctl.Name += "/control"
+					ctl.Sched = schedule{Name: "prompt", SlowNode: -1}
+					ctl.Sched2 = schedule{Name: "prompt", SlowNode: -1}
+					if !incomplete(runScenario(ctl, seed*1000+int64(i))) {
+						why = ""
+					}
+				} else {
+					why = "inconclusive: witness scenario did not complete"
+				}
+			}
+			results[i] = scRes{scs[i], obs, why}
 		}(i)
 	}
 
@@ -95,14 +154,25 @@ func Run(outDir string, seed int64, tier string) error {
 	// ---- real runs: monitor + DFinish cases ----
 	wg.Wait()
 	var runs []interface{}
+	var inconclusive []interface{}
 	spreads := map[string]float64{}
+	results = append([]scRes{{sc: calSc, obs: calObs}}, results...)
 	for _, r := range results {
 		for _, eo := range r.obs {
 			rep.Count(fmt.Sprintf("run/%s/epoch%d", eo.Scenario, eo.Epoch))
 			summary := map[string]interface{}{"scenario": eo.Scenario, "epoch": eo.Epoch, "nodes": len(eo.Nodes), "expected": eo.Expected, "wall_s": eo.Wall, "bus": eo.Stats}
+			if eo.Err != "" && r.inconclusive != "" {
+				summary["error"] = eo.Err
+				summary["inconclusive"] = r.inconclusive
+				rep.Count("run/inconclusive")
+				inconclusive = append(inconclusive, map[string]interface{}{"scenario": eo.Scenario, "epoch": eo.Epoch, "error": eo.Err, "why": r.inconclusive})
+				runs = append(runs, summary)
+				continue
+			}
 			if eo.Err != "" {
 				summary["error"] = eo.Err
-				rep.Fail("dkg-did-not-complete", "a scheduled DKG did not complete on every participant (twice)", map[string]interface{}{"dropped_link": eo.Loss, "scenario": r.sc, "epoch": eo.Epoch, "error": eo.Err})
+				summary["control_completed"] = true
+				rep.Fail("dkg-did-not-complete", "a scheduled DKG did not complete on every participant (twice, the second time with doubled timeouts) although the same ceremony without the scripted schedule completed in the same run", map[string]interface{}{"dropped_link": eo.Loss, "scenario": r.sc, "epoch": eo.Epoch, "error": eo.Err})
 				runs = append(runs, summary)
 				continue
 			}
@@ -139,6 +209,7 @@ func Run(outDir string, seed int64, tier string) error {
 		}
 	}
 	rep.Extra["runs"] = runs
+	rep.Extra["inconclusive_runs"] = inconclusive
 	rep.Extra["completion_spread_ms"] = spreads
 	rep.Extra["completion_spread_note"] = "F15: each node computes the transition time from its own clock when kyber returns; two nodes disagree exactly when a round boundary falls between their completion instants, i.e. with probability about spread/period per resharing (spreads measured above under the scripted delays); see known_witnesses for the deterministic replay"
 
@@ -172,7 +243,7 @@ func Run(outDir string, seed int64, tier string) error {
 			}
 		}
 	}
-	rep.Rule = "pure: SortedByPublicKey on byte-string keys (corpus of prefix/high-byte/empty/duplicate keys, small alphabets, real keys), setupDKG and asGroup through the verif hooks on generated DBStates (1..7 participants from seeded key pools of each scheme, random Remaining/Joining split, QUAL subsets ascending or shuffled, stored/empty seed, decoy previous group, malformed stream: garbage/truncated/foreign-group keys, unknown scheme, out-of-range QUAL index, no participants); real: dkg.Process networks (bolt stores, real kyber DKG) over an in-memory bus with random per-message delays, duplicates, one slow node, one crashed node, and exactly one lost or late direct transmission of a deal/response bundle to each receiver rank in key order (sender chosen by the seed), first DKG + one resharing (same/add/remove), one finished-state case per node; distinct = distinct case text; non-trivial = at least two distinct keys / participants / QUAL members (real runs: n >= 2)"
+	rep.Rule = "pure: SortedByPublicKey on byte-string keys (corpus of prefix/high-byte/empty/duplicate keys, small alphabets, real keys), setupDKG and asGroup through the verif hooks on generated DBStates (1..7 participants from seeded key pools of each scheme, random Remaining/Joining split, QUAL subsets ascending or shuffled, stored/empty seed, decoy previous group, malformed stream: garbage/truncated/foreign-group keys, unknown scheme, out-of-range QUAL index, no participants); real: dkg.Process networks (bolt stores, real kyber DKG) over an in-memory bus with random per-message delays, duplicates, one slow node, one crashed node, and exactly one lost direct transmission of a deal/response bundle (or one deal delivered only after the receiver has left the deal phase, gated on bus events, not on time) to each receiver rank in key order (sender chosen by the seed); all real-time constants scaled by a factor calibrated with a plain 3-node DKG at the start; a ceremony that does not complete is retried with longer timeouts and reported only if the same ceremony without the scripted schedule completes (else counted inconclusive), first DKG + one resharing (same/add/remove), one finished-state case per node; distinct = distinct case text; non-trivial = at least two distinct keys / participants / QUAL members (real runs: n >= 2)"
 	if err := shard(rep, outDir, "cases_dkgrun", []string{"From DV Require Import Model.DKGExec Corr.DKGExecCorr."}, lines, descr, 60); err != nil {
 		return err
 	}
@@ -256,7 +327,7 @@ func scenarios(rng *rand.Rand, thorough bool) []scenario {
 	}
 	// F15 replay: a running chain with a short period, one node receives the response bundles late
 	f15 := scenario{Scheme: crypto.DefaultSchemeID, N: 2, Thr: 2, Period: 1, GenesisIn: -100, Sched: none, Reshare: "same", Thr2: 2,
-		Sched2: schedule{Name: "late-responses", SlowNode: 1, SlowKind: "response", SlowDelay: 1300 * time.Millisecond}, Phase: 4 * time.Second}
+		Sched2: schedule{Name: "late-responses", SlowNode: 1, SlowKind: "response", SlowDelay: 1300 * time.Millisecond}, Phase: 4 * time.Second, WitnessOnly: true}
 	if !thorough {
 		// n = 1..4 with every admissible threshold, two schemes, the three reshare shapes
 		add(scenario{Scheme: crypto.DefaultSchemeID, N: 3, Thr: 2, Period: 1000, Sched: jitter, Reshare: "add", Thr2: 3, Sched2: slowAll(1)})
